@@ -144,6 +144,13 @@ func (r *runner) replay(w *b2fx.PeerWorld, script []byte, class, id string) {
 	defer b2fx.SetGzip(false)
 	lg := &mem.Log{}
 	st, _ := w.NewStation(lg)
+	if o.Evals%4 >= 2 {
+		// half of the sessions use a mailbox handler that answers a whole block in one call (the optional batched
+		// interface): the station's own answers (repeated identifiers, unsupported proposal kinds) and the handler's
+		// are then merged by position
+		st.Batched = true
+		o.Count("sessions_with_batched_handler", 1)
+	}
 	sess := w.NewLibSession(st.AsHandler())
 	if o.Evals%2 == 0 {
 		// every other session has a status updater registered (an application with a progress display):
